@@ -1860,6 +1860,20 @@ func (bc *Blockchain) AddBlock(block *block.Block) error {
 		if expectedH != block.Hash() {
 			return fmt.Errorf("invalid block: hash mismatch: expected %s, got %s", expectedH.StringLE(), block.Hash().StringLE())
 		}
+		// The hash doesn't cover the witness. The known header was verified
+		// with its witness; this one is taken on trust only if it's the same.
+		if !bc.config.SkipBlockVerification {
+			known, err := bc.GetHeader(expectedH)
+			if err != nil || !sameWitness(&known.Script, &block.Script) {
+				prev, err := bc.GetHeader(block.PrevHash)
+				if err != nil {
+					return fmt.Errorf("invalid block: failed to get previous header: %w", err)
+				}
+				if err = bc.verifyHeaderWitnesses(&block.Header, prev); err != nil {
+					return fmt.Errorf("invalid block: %w", err)
+				}
+			}
+		}
 	}
 	if !bc.config.SkipBlockVerification {
 		merkle := block.ComputeMerkleRoot()
@@ -1891,7 +1905,7 @@ func (bc *Blockchain) AddBlock(block *block.Block) error {
 			// Transactions are verified before adding them
 			// into the pool, so there is no point in doing
 			// it again even if we're verifying in-block transactions.
-			if bc.memPool.ContainsKey(tx.Hash()) {
+			if bc.isPooledAsIs(tx) {
 				err = mp.Add(tx, bc)
 				if err == nil {
 					continue
@@ -1908,6 +1922,21 @@ func (bc *Blockchain) AddBlock(block *block.Block) error {
 		}
 	}
 	return bc.storeBlock(block, mp)
+}
+
+// isPooledAsIs tells whether the memory pool has this very transaction,
+// witnesses included: the hash of a transaction doesn't cover its witnesses,
+// so a pooled (verified) transaction with the same hash says nothing about
+// the witnesses of the given one.
+func (bc *Blockchain) isPooledAsIs(tx *transaction.Transaction) bool {
+	pooled, ok := bc.memPool.TryGetValue(tx.Hash())
+	return ok && slices.EqualFunc(pooled.Scripts, tx.Scripts, func(a, b transaction.Witness) bool {
+		return sameWitness(&a, &b)
+	})
+}
+
+func sameWitness(a, b *transaction.Witness) bool {
+	return bytes.Equal(a.InvocationScript, b.InvocationScript) && bytes.Equal(a.VerificationScript, b.VerificationScript)
 }
 
 // AddHeaders processes the given headers and add them to the
